@@ -284,7 +284,9 @@ func (p *Posix) ListBuckets(_ context.Context, input s3response.ListBucketsInput
 		}
 
 		if len(buckets) == int(input.MaxBuckets) {
-			cToken = buckets[len(buckets)-1].Name
+			if len(buckets) > 0 {
+				cToken = buckets[len(buckets)-1].Name
+			}
 			break
 		}
 
